@@ -272,3 +272,62 @@ theorem copyLoopSink_prefix {C : Crypto} (hC : AeadOK C) (cs : List Bytes) :
       · simp only [List.flatten_cons, ha, h3 h]
 
 end SSV.Stream
+
+namespace SSV.Stream
+open SSV.Gen.C01
+
+/-- the state a copy into a failing sink / destination leaves behind: the reader is in sync with the
+chunks after the one in flight; the stream splits into what the sink took, what was lost of the chunk
+in flight (at most the rest of that one chunk; nothing if the sink never failed), and what is still to
+come — so nothing can be delivered twice and nothing beyond the chunk in flight is lost -/
+theorem copyLoopSink_sync {C : Crypto} (hC : AeadOK C) (cs : List Bytes) :
+    ∀ (fuel : Nat) (r : Reader) (sink : List SinkRes) (acc : List Bytes), Sync C r cs → SinkOK sink → cs.length < fuel →
+      ∃ pieces e cs' lost, (copyLoopSink C fuel r sink acc).1 = .copied (acc.reverse ++ pieces) e ∧
+        Sync C (copyLoopSink C fuel r sink acc).2.1 cs' ∧ (copyLoopSink C fuel r sink acc).2.1.left = r.left ∧
+        cs.flatten = pieces.flatten ++ lost ++ cs'.flatten ∧ lost.length ≤ streamMaxPayloadSize ∧
+        (e = none → lost = [] ∧ cs' = []) ∧ (e = none ∨ e = some .sinkErr) := by
+  induction cs with
+  | nil =>
+    intro fuel r sink acc hs _ hf
+    obtain ⟨f, rfl⟩ : ∃ f, fuel = f + 1 := ⟨fuel - 1, by omega⟩
+    have hw : r.wire = [] := by simpa [encodeChunks] using hs.wire
+    refine ⟨[], none, [], [], by simp [copyLoopSink, hw, readChunk_nil], ?_, by simp [copyLoopSink, hw, readChunk_nil], rfl, by simp,
+      fun _ => ⟨rfl, rfl⟩, Or.inl rfl⟩
+    simp only [copyLoopSink, hw, readChunk_nil]
+    exact ⟨rfl, ValidChunks.nil⟩
+  | cons p ps ih =>
+    intro fuel r sink acc hs hk hf
+    obtain ⟨f, rfl⟩ : ∃ f, fuel = f + 1 := ⟨fuel - 1, by omega⟩
+    have hp := hs.valid p List.mem_cons_self
+    have hw : r.wire = sealChunk C r.key r.nonce p ++ encodeChunks C r.key (r.nonce + 2) ps := by
+      simpa [encodeChunks] using hs.wire
+    have hs' : Sync C { r with nonce := r.nonce + 2, wire := encodeChunks C r.key (r.nonce + 2) ps } ps :=
+      ⟨rfl, hs.valid.tail⟩
+    obtain ⟨⟨rest0, hpre⟩, hfull, hk'⟩ := sinkWrite_ok hk p hp.2
+    by_cases he : (sinkWrite sink p).2.1 = true
+    · refine ⟨[(sinkWrite sink p).1], some .sinkErr, ps, rest0, ?_⟩
+      refine And.intro ?_ (And.intro ?_ (And.intro ?_ (And.intro ?_ (And.intro ?_ (And.intro (fun h => nomatch h) (Or.inr rfl))))))
+      · simp [copyLoopSink, hw, readChunk_sealChunk hC _ _ _ _ hp.1 hp.2, he]
+      · simp only [copyLoopSink, hw, readChunk_sealChunk hC _ _ _ _ hp.1 hp.2, he, ↓reduceIte]
+        exact hs'
+      · simp [copyLoopSink, hw, readChunk_sealChunk hC _ _ _ _ hp.1 hp.2, he]
+      · simp only [List.flatten_cons, List.flatten_nil, List.append_nil]
+        rw [← hpre]
+      · have : p.length = (sinkWrite sink p).1.length + rest0.length := by
+          have := congrArg List.length hpre; simpa using this
+        omega
+    · have he' : (sinkWrite sink p).2.1 = false := by simpa using he
+      have ha := hfull he'
+      obtain ⟨pieces, e, cs', lost, h1, h2, h2l, h3, h4, h5, h6⟩ :=
+        ih f _ (sinkWrite sink p).2.2 ((sinkWrite sink p).1 :: acc) hs' hk' (by simp at hf; omega)
+      refine ⟨(sinkWrite sink p).1 :: pieces, e, cs', lost, ?_⟩
+      refine And.intro ?_ (And.intro ?_ (And.intro ?_ (And.intro ?_ (And.intro h4 (And.intro h5 h6)))))
+      · simp only [copyLoopSink, hw, readChunk_sealChunk hC _ _ _ _ hp.1 hp.2, he', Bool.false_eq_true, ↓reduceIte]
+        rw [h1]; simp
+      · simp only [copyLoopSink, hw, readChunk_sealChunk hC _ _ _ _ hp.1 hp.2, he', Bool.false_eq_true, ↓reduceIte]
+        exact h2
+      · simp only [copyLoopSink, hw, readChunk_sealChunk hC _ _ _ _ hp.1 hp.2, he', Bool.false_eq_true, ↓reduceIte]
+        exact h2l
+      · simp only [List.flatten_cons, ha, h3, List.append_assoc]
+
+end SSV.Stream
